@@ -159,6 +159,9 @@ func (n *node) tokens(b *strings.Builder) {
 	case "conv":
 		fmt.Fprintf(b, " conv %s", n.k.name)
 		n.a.tokens(b)
+	case "str":
+		b.WriteString(" str")
+		n.a.tokens(b)
 	default:
 		fmt.Fprintf(b, " %s %s", n.op, n.sub)
 		n.a.tokens(b)
@@ -180,6 +183,10 @@ func (n *node) goSrc(b *strings.Builder) {
 		b.WriteString(")")
 	case "conv":
 		b.WriteString(n.k.name + "(")
+		n.a.goSrc(b)
+		b.WriteString(")")
+	case "str":
+		b.WriteString("string(")
 		n.a.goSrc(b)
 		b.WriteString(")")
 	case "bin":
@@ -232,12 +239,28 @@ type variable struct {
 }
 
 type tcase struct {
-	tree *node
-	vars []variable
-	tag  string // which stream produced it
+	tree   *node
+	vars   []variable
+	tag    string // which stream produced it
+	opLine string // for cases the Lean evaluator has no tree for (string results): the driver request
+}
+
+// modelAnswer turns the driver's answer to line() into an eval-style outcome.
+func (c *tcase) modelAnswer(ans string) string {
+	if c.opLine == "" {
+		return ans
+	}
+	f := strings.Fields(ans) // ok <vm hex> <spec hex>
+	if len(f) != 3 || f[0] != "ok" {
+		return ans
+	}
+	return "ok string " + f[2]
 }
 
 func (c *tcase) line() string {
+	if c.opLine != "" {
+		return c.opLine
+	}
 	var b strings.Builder
 	fmt.Fprintf(&b, "C01 eval %d", len(c.vars))
 	for _, v := range c.vars {
@@ -268,7 +291,7 @@ func (c *tcase) clone() *tcase {
 		m.a, m.b = cp(n.a), cp(n.b)
 		return &m
 	}
-	return &tcase{tree: cp(c.tree), vars: append([]variable(nil), c.vars...), tag: c.tag}
+	return &tcase{tree: cp(c.tree), vars: append([]variable(nil), c.vars...), tag: c.tag, opLine: c.opLine}
 }
 
 // normalise renumbers the variables actually used (Go rejects unused variables).
